@@ -15,6 +15,12 @@ From ApiFu Require Import Base.Sexp Feat.FeaturesModel Feat.FeaturesSpec.
 Import ListNotations.
 Open Scope string_scope.
 
+Fixpoint string_of_bytes (b : bytes) : string :=
+  match b with
+  | [] => EmptyString
+  | c :: r => String (Ascii.ascii_of_N c) (string_of_bytes r)
+  end.
+
 (** ** decoding *)
 Definition dec_names (l : list sexp) : option (list name) := map_opt as_bytes l.
 
@@ -392,12 +398,6 @@ Fixpoint first_some {A} (f : A -> option sexp) (l : list A) : option sexp :=
   end.
 
 (** ** evidence classes *)
-Fixpoint string_of_bytes (b : bytes) : string :=
-  match b with
-  | [] => EmptyString
-  | c :: r => String (Ascii.ascii_of_N c) (string_of_bytes r)
-  end.
-
 Definition query_tag (q : query_) : string :=
   match q with
   | QRoot _ => "root" | QNamedV _ => "validator-type-lookup" | QNamedE _ => "executor-type-lookup"
@@ -485,6 +485,14 @@ Fixpoint dedup (l : list string) : list string :=
 
 Definition case_kind (l : list sexp) : string :=
   match field1 "kind" l with Some (SSym k) => k | _ => "unknown" end.
+(** for the hostile stream: which edit, and how schema.New judged it *)
+Definition edit_class (l : list sexp) (accepted : bool) : list string :=
+  if String.eqb (case_kind l) "hostile" then
+    match field1 "note" l with
+    | Some (SStr b) => [(if accepted then "edit-accepted:" else "edit-rejected:") ++ string_of_bytes b]
+    | _ => []
+    end
+  else [].
 
 (** the reduced definition as schema.New itself registers it (side c), present when that differs
     from the reduced registry: (physical (names ..) (registered ..) (a OBS INTRO) (c OBS INTRO)) *)
@@ -523,7 +531,7 @@ Definition check_physical (S : schema) (F G : features) (l : list sexp) : option
 Definition check_case (S : schema) (F G : features) (accepted : bool) (l : list sexp) (sd : sexp) : sexp :=
   if negb accepted then
     if schema_ok S then v_mismatch "schema-ok" [of_bool true; of_bool false]
-    else v_ok [case_kind l; "schema-rejected"]
+    else v_ok (case_kind l :: "schema-rejected" :: edit_class l false)
   else
     (* the implementation accepted the schema: the oracle speaks first, also when the model's
        schema_ok disagrees (then a failing request is the better report) *)
@@ -555,7 +563,7 @@ Definition check_case (S : schema) (F G : features) (accepted : bool) (l : list 
                           let cl := dedup (flat_map (req_classes S F G) rs') in
                           let deleted := negb (sexp_eqb (enc_schema E) sd) in
                           let matters := existsb (fun x => String.eqb x "introspect-gating-matters" || String.eqb x "chain-gating-matters") cl in
-                          v_ok (case_kind l :: "schema-accepted" ::
+                          v_ok (case_kind l :: "schema-accepted" :: edit_class l true ++
                                 (if deleted then ["something-erased"] else ["nothing-erased"]) ++
                                 cl ++ (if deleted && matters then ["nontrivial"] else []))%list
                         end
